@@ -119,6 +119,30 @@ Theorem float_retyped_exact_refuted :
 Proof. exact Examples.float_retyped_exact_refuted. Qed.
 Print Assumptions float_retyped_exact_refuted.
 
+(* what [wf_file] ("identifiers and strings expressible in the DBC grammar") leaves out is left out because the
+   writer's text of such a document is not read back as the document: one smallest document per exclusion, decided
+   by evaluation of the model; [doc_inside] has the same shape inside [wf_file] and does round-trip
+   (round_trips f := parse (write f) = OOk (norm_file f), toy oracle) *)
+Theorem wf_file_exclusions_refuted :
+  round_trips doc_inside /\
+  ~ round_trips doc_ident_underscore /\ ~ round_trips doc_ident_m1 /\ ~ round_trips doc_ident_M /\
+  ~ round_trips doc_ident_keyword /\ ~ round_trips doc_no_receivers /\ ~ round_trips doc_no_access_nodes /\
+  ~ round_trips doc_no_ranges /\ ~ round_trips doc_foreign_symbol /\ ~ round_trips doc_blank_attr_name /\
+  ~ round_trips doc_quote_in_string /\ ~ round_trips doc_nul_in_string.
+Proof. exact Examples.wf_file_exclusions_refuted. Qed.
+Print Assumptions wf_file_exclusions_refuted.
+
+(* the two float cases of the FLOAT -> INT re-typing: -0.0 comes back as the INT 0 (equal as numbers, the sign of
+   the zero is gone); 2^60, printed by its shortest decimal, comes back as the INT 1152921504606847000 (the same
+   double when converted back, another integer) - with an oracle printing these two values like strconv does *)
+Theorem negative_zero_and_large_float_retyped :
+  (exists f', parse no_ud toy_prs false (write strconv_like_fmt false (with_value (AVFloat neg_zero_bits))) = OOk f'
+              /\ map av_value (f_avs f') = [AVInt 0%Z]) /\
+  (exists f', parse no_ud toy_prs false (write strconv_like_fmt false (with_value (AVFloat two_pow_60_bits))) = OOk f'
+              /\ map av_value (f_avs f') = [AVInt 1152921504606847000%Z] /\ (1152921504606847000 <> 2 ^ 60)%Z).
+Proof. exact Examples.negative_zero_and_large_float_retyped. Qed.
+Print Assumptions negative_zero_and_large_float_retyped.
+
 (* the hypotheses are satisfiable: an oracle pair with the two laws, a document over several
    sections (multiplexing, extended mux, every attribute value form) that is expressible, and its
    round trip evaluated in both number modes *)
